@@ -20,7 +20,7 @@ from sim.rngsim import EntropyHang, EntropySeam, SimEntropy
 PROPERTY = "C16"
 LEVEL = "exploration"
 ENGINE = "nodesim"
-HAS_VIRTUAL_TIME = False
+HAS_VIRTUAL_TIME = True  # node latency and gaps between sends advance a virtual clock
 
 TIERS = {
     "quick": {"runs": 1600, "batch": 8, "wall_cap": 1800},
@@ -275,6 +275,7 @@ def plan(seed, tier="quick", index=0):
                 "amount_format": "fixed8" if clean or rng.random() < 0.75 else "trimmed",
                 "latency": 0.05 if clean else rng.choice([0.01, 0.05, 0.3, 0.3, 2.0, 7.5, 31.0]),
                 "gap_before": 0.0 if clean else rng.choice([0.0, 0.2, 3.0, 12.0, 45.0, 400.0]),
+                "clock_jump": 0.0 if clean else rng.choice([0.0, 0.0, 0.0, 0.0, 3600.0, -3600.0, -86400.0]),
             }
         )
     sc = {"property": PROPERTY, "seed": seed, "stratum": stratum, "net": net, "idents": idents, "funding": funding, "sends": sends}
@@ -433,6 +434,9 @@ def execute(scenario, tape=None, keep_events=False):
                 node.amount_format = s.get("amount_format", "fixed8")
                 node.latency = s.get("latency", 0.05)
                 vtime.advance(s.get("gap_before", 0.0))
+                if s.get("clock_jump"):
+                    vtime.wall_offset += s["clock_jump"]
+                    faults.hit("wall-clock-jump")
                 if s.get("amount_format") == "trimmed":
                     faults.hit("node-prints-trimmed-amounts")
                 if pre is None:
@@ -596,6 +600,7 @@ def execute(scenario, tape=None, keep_events=False):
             seen.add(kk)
             res.violations.append(v.to_json())
     res.nontrivial = nontrivial
+    res.sim_time = vtime.now
     res.digest = log.digest()
     res.tape = out_tape
     if out_tape is not None:
@@ -671,7 +676,7 @@ def shrink_candidates(scenario, tape):
         sc["funding"].pop(i)
         yield sc, tape
     for i, s in enumerate(sends):
-        for key, val in (("change", None), ("flag", 1), ("version", 1), ("locktime", 0), ("order", "insertion"), ("entropy", []), ("fraction", 1.0), ("fee", 1000), ("amount_format", "fixed8"), ("latency", 0.05), ("gap_before", 0.0)):
+        for key, val in (("change", None), ("flag", 1), ("version", 1), ("locktime", 0), ("order", "insertion"), ("entropy", []), ("fraction", 1.0), ("fee", 1000), ("amount_format", "fixed8"), ("latency", 0.05), ("gap_before", 0.0), ("clock_jump", 0.0)):
             if s.get(key, val) != val:
                 sc = copy.deepcopy(scenario)
                 sc["sends"][i][key] = val
